@@ -125,7 +125,7 @@ class Linearization(Operator):
         return self._metric
 
     def __getitem__(self, name):
-        if not isinstance(self.domain, MultiDomain):
+        if not isinstance(self.target, MultiDomain):
             raise TypeError(f"'{type(self)}' object is not subscriptable")
         return self.new(self._val[name], self._jac.ducktape_left(name))
 
